@@ -59,7 +59,8 @@ PROPS = {
                 "the Tracked value type (self pointer, magic, owned heap block, live-instance counter that must return to its baseline when the container is destroyed); "
                 "non-trivial = at least two slot recycles (removal -> creation) in the history",
                 needs=["slot_recycles"],
-                assumptions=["uninitialised reads are not monitored (no MSan-instrumented libstdc++ in this image)"]),
+                assumptions=["uninitialised reads are not monitored (no MSan-instrumented libstdc++ in this image)",
+                             "value types whose copy / move / assignment throw are outside the generated domain (no listed property covers exception safety)"]),
     "C09": dict(mode="model", profile="general", **tiers(12000, 60, 60000, 120, t_fuzz_s=90),
                 rule=GEN_RULE + "non-trivial = at least one rejected and one accepted insert whose key had a prior history (erased, evicted or expired)",
                 needs=["rejected_with_prior_history", "accepted_with_prior_history"]),
